@@ -38,6 +38,40 @@ static void run(const struct inp *in, unsigned mask, long fail, int nullalloc, s
     else r->validated++;
 }
 
+/* part 2: the result of every constructor must not depend on what fresh memory contains */
+static void fill_differential(const struct inp *in, unsigned mask, struct res *r) {
+    static const uint8_t FILLS[] = { 0x00, 0xDD, 0xFF, 0x5A };
+    obs ref_o; int have = 0; char rep[100], key[160];
+    sprintf(rep, "case %d %u -1 0", (int)(in - IN), mask);
+    polyseed_dependency d; deps_variant(0, 0, 0, 0, &d); polyseed_inject(&d);
+    polyseed_enable_features(mask);
+    for (unsigned f = 0; f < sizeof FILLS; f++) {
+        E.alloc_fill_set = 1; E.alloc_fill = FILLS[f]; env_clear_log(); E.fail_at = -1;
+        polyseed_data *s = NULL; const polyseed_lang *lo = NULL; int st = -1;
+        memcpy(E.tape[0], "\x10\x32\x54\x76\x98\xba\xdc\xfe\x01\x23\x45\x67\x89\xab\xcd\xef\x13\x57\x9b", 19);
+        switch (in->kind) {
+        case 0: st = polyseed_load(in->buf, &s); break;
+        case 1: st = polyseed_decode(in->str, in->coin, &lo, &s); break;
+        case 2: st = polyseed_decode_explicit(in->str, in->coin, polyseed_get_lang(in->li), &s); break;
+        case 3: st = polyseed_create(in->feat, &s); break;
+        }
+        r->calls++;
+        if (st != POLYSEED_OK) { E.alloc_fill_set = 0; return; }     /* only successful constructors hand out a seed */
+        obs o; observe(s, 11, &o); r->calls += 13;
+        /* also what a later password operation and re-encoding make of it */
+        polyseed_crypt(s, "k"); obs o2; observe(s, 11, &o2); polyseed_free(s); r->calls += 15;
+        memcpy(o.kdf_salt + 28, o2.store + 10, 4);    /* fold a few bytes of the second observation into the first for one comparison */
+        if (!have) { ref_o = o; have = 1; }
+        else if (!obs_eq(&ref_o, &o)) {
+            snprintf(key, sizeof key, "c15:fresh-memory:%s", in->name);
+            res_viol(r, key, rep, "%s: the seed handed out depends on the contents of freshly allocated memory (fill 0x%02x vs 0x00: store / getters / KDF inputs differ)", in->name, FILLS[f]);
+            E.alloc_fill_set = 0; return;
+        }
+    }
+    E.alloc_fill_set = 0;
+    r->cases++; r->validated++;
+}
+
 int main(int argc, char **argv) {
     int a = common_args(argc, argv);
     ref_init(VERIF_ROOT); sec_mark_initial(); env_init(); inject(0); polyseed_enable_features(7);
@@ -69,10 +103,11 @@ int main(int argc, char **argv) {
         in = &IN[NIN++]; snprintf(in->name, sizeof in->name, "decode%s(multi-language)", k == 2 ? "_explicit" : ""); in->kind = k; in->li = 3; strcpy(in->str, "impo sort usua cabi venu nobl oliv clim cont barr marc auto prod vaca torn fati");
     }
     if (a < argc && !strcmp(argv[a], "case")) {
-        int i = atoi(argv[a + 1]); run(&IN[i], atoi(argv[a + 2]), atol(argv[a + 3]), atoi(argv[a + 4]), r);
+        int i = atoi(argv[a + 1]); run(&IN[i], atoi(argv[a + 2]), atol(argv[a + 3]), atoi(argv[a + 4]), r); fill_differential(&IN[i], atoi(argv[a + 2]), r);
         printf("%s\n", IN[i].name); for (int j = 0; j < r->nviol; j++) printf("REPRODUCED %s: %s\n", r->v[j].key, r->v[j].msg); return r->nviol ? 1 : 0;
     }
     for (int i = 0; i < NIN; i++) for (unsigned mask = 0; mask < 8; mask += (mask == 0 ? 5 : 2)) for (long fail = -1; fail <= 1; fail++) for (int na = 0; na < 2; na++) run(&IN[i], mask, fail, na, r);
+    for (int i = 0; i < NIN; i++) fill_differential(&IN[i], 7, r);
     int triples = 0; for (int k = 0; k < 4; k++) for (int s = 0; s < 8; s++) for (int f = 0; f < 3; f++) triples += seen[k][s][f];
     res_sample(r, "%d inputs (one per entry point x outcome class) x masks {0,5,7} x fail_at {none,0,1} x {injected, libc} allocator; e.g. \"%s\"", NIN, IN[NIN - 1].name);
     out_begin(); out_part("entry points x outcome classes x failing allocation request", r, CLS, ""); out_kv_int("fault_distinct_triples", triples); out_kv_int("fault_inputs", NIN); out_end();
